@@ -181,12 +181,26 @@ pub fn gen_c11(tier: &str, seed: u64, out: &mut Vec<String>) {
         };
         let stack = rng.chance(5, 6);
         let stop_after = rng.below(30);
+        let mut hooks: Vec<(&str, &str, &str)> = vec![];
+        if rng.chance(1, 3) {
+            for _ in 0..1 + rng.below(2) {
+                hooks.push((
+                    *rng.pick(&["before", "after"]),
+                    *rng.pick(&["Mov", "Add", "Sub", "Cmp", "Inc", "Dec", "Jmp", "Call", "Ret", "Push", "Pop", "Nop", "Jne", "Je"]),
+                    *rng.pick(&["stop", "stop", "stophandled", "unhandled"]),
+                ));
+            }
+        }
         for mode in 0..2 {
             out.push(format!("new {} {:x} {:x}", hex(&code), CODE, entry));
             dec_all(&code, CODE, out);
             out.push(regs.clone());
             if stack {
                 out.push("stack 200".into());
+            }
+            // a hook may stop the run: the stopped step still executes its instruction exactly once and is counted
+            for (h, hk) in hooks.iter().enumerate() {
+                out.push(format!("hook {} {} s{} {} -", hk.0, hk.1, h, hk.2));
             }
             // a bounded run is needed for `execute`: always set some limit there
             let lim = limit.unwrap_or(60);
@@ -305,12 +319,14 @@ pub fn gen_c12(tier: &str, seed: u64, out: &mut Vec<String>) {
         } else {
             plen = 2 + rng.below(5) as usize;
             for _ in 0..plen {
-                prog.push(match rng.below(6) {
+                prog.push(match rng.below(8) {
                     0 => nop(),
                     1 => mov_r_imm32(rng.below(4) as u8, rng.below(9) as u32),
                     2 => inc_r(rng.below(4) as u8),
                     3 => ins(&[0xcc]),
                     4 => syscall(),
+                    5 => ins(&[0xcd, 0x80]),
+                    6 => ins(&[0xf1]),
                     _ => nop(),
                 });
             }
@@ -321,7 +337,7 @@ pub fn gen_c12(tier: &str, seed: u64, out: &mut Vec<String>) {
         if callret {
             out.push("stack 200".into());
         }
-        let mns: &[&str] = if callret { &["Call", "Ret", "Ret", "Nop", "Mov", "Inc", "Push", "Pop"] } else { &["Nop", "Mov", "Inc", "Int3", "Syscall"] };
+        let mns: &[&str] = if callret { &["Call", "Ret", "Ret", "Nop", "Mov", "Inc", "Push", "Pop"] } else { &["Nop", "Mov", "Inc", "Int3", "Syscall", "Int", "Int1"] };
         let nh = rng.below(7);
         for id in 0..nh {
             let phase = if rng.chance(1, 2) { "before" } else { "after" };
